@@ -6,9 +6,9 @@ Line-protocol component for C09: the ops of C08 plus
 * `post <op>` → `ok valid=… noempty=… nounit=… reach=… nocycle=… noleftrec=… leftfactored=… cnf=… loosecnf=…`:
   every post-condition of `Spec/C09.lean` evaluated on the Model's result of `<op>` (`noempty` relative to
   the input grammar) | `panic` | `hang`;
-* `parsers` → `ok unchanged` (the implementation side hands the grammar to `predictive.BuildParsingTable`
-  and the three LR table constructors and prints `ok MUTATED by <constructor>` when the caller's grammar
-  differs from a clone taken before the call).
+* `parsers` → `ok unchanged predictive=returned|panic` (the implementation side hands the grammar to
+  `predictive.BuildParsingTable` and the three LR table constructors and prints `ok MUTATED by <constructor>` when the
+  caller's grammar differs from a clone taken before the call; `predictive=` says whether `BuildParsingTable` returned).
 -/
 namespace AlgoVerif.C09.Driver
 open AlgoVerif AlgoVerif.Gram AlgoVerif.C08 AlgoVerif.C09.Spec
@@ -28,7 +28,13 @@ def postOp (g : G) (ws : List String) : Option String :=
     | none => none
   -- the grammar handed to a parser constructor: the Model is a function of the grammar value, which it
   -- cannot change; the harness compares the caller's grammar with a clone taken before the call
-  | ["parsers"] => some "ok unchanged"
+  | ["parsers"] =>
+    -- … and it says whether `predictive.BuildParsingTable` returned: on a grammar that fails `Verify()`, `ComputeFIRST` /
+    -- `ComputeFOLLOW` / the FIRST closure can dereference the nil answer of a table lookup (`analyseP`, `Model/C10Ext.lean`)
+    some ("ok unchanged predictive=" ++ (match AlgoVerif.C10.analyseP g AlgoVerif.C10.IterOrder.canon AlgoVerif.C10.IterOrder.canon with
+      | .ok _ => "returned"
+      | .panic => "panic"
+      | .diverge => "hang"))
   | _ => none
 
 def runCase (_hdr : List String) (ops : List String) : List String :=
